@@ -224,22 +224,23 @@ type seen struct {
 }
 
 type run struct {
-	sys      *actor.System
-	keys     map[*actor.Context]key
-	order    []*actor.Context
-	perPath  map[string]int
-	refKey   map[vivid.ActorRef]key
-	obs      []lib.T
-	seens    []seen
-	panics   []panicRec      // scripted failures raised by user code, with the failing actor's state at that moment
-	decs     []decRec        // every consultation of a scripted supervision strategy
-	scripted map[string]bool // paths of actors that were given a scripted strategy (others use the system default)
-	spawnLog []lib.T
-	held     [][]vivid.ActorRef
-	curExt   int
-	panicked string
-	sends    map[uint64]int
-	onceDone map[string]bool
+	sys        *actor.System
+	keys       map[*actor.Context]key
+	order      []*actor.Context
+	perPath    map[string]int
+	refKey     map[vivid.ActorRef]key
+	obs        []lib.T
+	seens      []seen
+	panics     []panicRec      // scripted failures raised by user code, with the failing actor's state at that moment
+	decs       []decRec        // every consultation of a scripted supervision strategy
+	deadLaunch map[string]bool // paths whose OnLaunch was reported as a dead letter
+	scripted   map[string]bool // paths of actors that were given a scripted strategy (others use the system default)
+	spawnLog   []lib.T
+	held       [][]vivid.ActorRef
+	curExt     int
+	panicked   string
+	sends      map[uint64]int
+	onceDone   map[string]bool
 }
 
 func (r *run) keyOf(c *actor.Context) key {
@@ -285,6 +286,12 @@ func (r *run) msgDesc(msg any, toRoot bool) (lib.T, int, string, uint64) {
 		return lib.L(lib.N(11), lib.N(102), lib.L(lib.N(m.P))), 11, "", 102
 	case ves.DeathLetterEvent:
 		inner, ik, _, itag := r.msgDesc(m.Envelope.Message(), false)
+		if _, isLaunch := m.Envelope.Message().(*vivid.OnLaunch); isLaunch && m.Envelope.Receiver() != nil {
+			if r.deadLaunch == nil {
+				r.deadLaunch = map[string]bool{}
+			}
+			r.deadLaunch[m.Envelope.Receiver().GetPath()] = true // an OnLaunch that found its actor already terminated
+		}
 		if toRoot {
 			return lib.L(lib.N(12), lib.Bool(m.Envelope.System()), inner), 12, "", itag
 		}
@@ -597,6 +604,7 @@ type result struct {
 	panics      []panicRec
 	decs        []decRec
 	scripted    map[string]bool
+	deadLaunch  map[string]bool
 }
 
 type finalInfo struct {
@@ -743,7 +751,7 @@ func execute(scripts [][]Action, choose func([]int, int) int) result {
 	}
 	res.obs = r.obs
 	res.seens = r.seens
-	res.panics, res.decs, res.scripted = r.panics, r.decs, r.scripted
+	res.panics, res.decs, res.scripted, res.deadLaunch = r.panics, r.decs, r.scripted, r.deadLaunch
 	res.sent = r.sends
 	// final projection
 	for _, c := range r.order {
@@ -1282,6 +1290,8 @@ func (h *H) monitors(scripts [][]Action, res result, in lib.T) {
 				}
 				if later {
 					h.o.Monitor("c05-before-launch", in, fmt.Sprintf("%v saw %s before OnLaunch; OnLaunch was handled later by the same incarnation", s.who, lib.Show(s.desc)))
+				} else if res.deadLaunch[s.who.path] {
+					h.o.Monitor("c05-before-launch", in, fmt.Sprintf("%v saw %s before OnLaunch; OnLaunch was enqueued later, after a racing kill had terminated the actor, and became a dead letter", s.who, lib.Show(s.desc)))
 				} else {
 					h.o.Monitor("c05-never-launched", in, fmt.Sprintf("%v saw %s although this incarnation never handles OnLaunch", s.who, lib.Show(s.desc)))
 				}
